@@ -9,7 +9,10 @@ from ..core import expect_return, run_async, run_sync, consumer_view, first_diff
 PROPERTY = "C01"
 LEVEL = "exploration"
 RULE = (
-    "Hypothesis draws, per iterator tool, 0-4 sources (given as async generator, list or one-shot iterator; "
+    "Hypothesis draws, per iterator tool, 0-4 sources (given as async generator, list, one-shot iterator, __getitem__ "
+    "sequence, re-iterable sync / async iterable, or a class-based async iterator behind a delegating proxy; after "
+    "the end an iterator may be polled 1-3 more times and must stay exhausted; iter(callable, sentinel) also with a "
+    "NaN sentinel returned by the callable; callables may return a class; "
     "tee children may also be closed/dropped early in a generated order) of 0-8 items (Items with keys 0..3 so that "
     "equal-yet-distinguishable items are frequent; other value profiles where the tool allows), "
     "all valid parameters and table-driven callables; the asynchronous tool and the synchronous "
